@@ -160,8 +160,13 @@ def all_variants():
                     add("none_nonnull", "late", pos=pos, rg=rg)
                     # a missing value (<NA>) in a column the existing schema declares REQUIRED, for every dtype family that can hold one
                     # (object columns: none_nonnull above; NaN in float columns is a value of the type; NaT / categoricals: notes)
-                    for fam in L.MASKED_DTYPES:
+                    for fam in L.MASKED_DTYPES + ["category"]:
                         add("na_nonnull", "late", pos=pos, rg=rg, family=fam)
+                    # floats and times: the library documents NaN / NaT as SENTINEL values of a non-nullable column ("not the same as NULL
+                    # in parquet, but functionally act the same"): such a cell is a value of the type, the append is ACCEPTED and the cell
+                    # must read back as NaN / NaT next to the untouched old rows (masked Float <NA> is lowered to NaN the same way)
+                    for fam in SENTINEL_FAMILIES:
+                        add("sentinel_ok", "ok", pos=pos, rg=rg, family=fam)
                 add("codec_col", "late", pos=pos)
                 add("bad_dtype", "late", pos=pos)
             add("dup_col", "validation")
@@ -226,6 +231,7 @@ def all_variants():
     return out
 
 
+SENTINEL_FAMILIES = ["float64_nan", "float32_nan", "Float64", "Float32", "nat_ns", "nat_us"]
 IO_POSITIONS = ["first_write", "middle_write", "footer_thrift", "footer_length", "footer_magic"]
 
 
@@ -350,7 +356,7 @@ def build(v, rng, sid):
         r = later_row()
         [f for f in frame1 if f[0] == "s"][0][2][r] = None
         bad_rows = [r]
-    elif kind == "na_nonnull":
+    elif kind in ("na_nonnull", "sentinel_ok"):
         r = later_row()
         bad_rows = [r]
     elif kind == "io_fault":
@@ -381,22 +387,31 @@ def build(v, rng, sid):
         m = rng.choice([1, 2, 4])
         prior = {"frame": gen_frame(order, st, m, rng), "offsets": offsets(m, min(m, rng.choice([1, 2])))}
     oe0 = None
-    if kind == "na_nonnull":
+    if kind in ("na_nonnull", "sentinel_ok"):
         # column b of the existing dataset has the numpy counterpart of the family (REQUIRED: has_nulls=False); the appended frame
-        # carries it with the pandas extension dtype and one <NA>
+        # carries it with the pandas extension dtype (or the same numpy dtype) and one missing cell (<NA> / None / NaN / NaT)
         fam = v["family"]
-        base = {"boolean": "bool", "string": "object"}.get(fam, fam.lower())
+        base = {"boolean": "bool", "string": "object", "category": "category", "float64_nan": "float64", "float32_nan": "float32",
+                "nat_ns": "datetime64[ns]", "nat_us": "datetime64[us]"}.get(fam, fam.lower())
+        if fam in ("float64_nan", "float32_nan", "nat_ns", "nat_us", "category"):
+            fam = base
 
         def vals(n):
             if fam == "boolean":
                 return [rng.random() < 0.5 for _ in range(n)]
             if fam == "string":
                 return [rng.choice(["x", "yy", "zzz"]) + str(rng.randrange(10)) for _ in range(n)]
+            if fam == "category":
+                return [rng.choice(L.CAT_LABELS) for _ in range(n)]
+            if base.startswith("float"):
+                return [rng.choice([0.5, -1.25, 3.0, 7.75]) for _ in range(n)]
+            if base.startswith("datetime"):
+                return ["2020-01-%02dT00:00:%02d" % (rng.randrange(1, 28), rng.randrange(60)) for _ in range(n)]
             return [rng.randrange(0, 100) for _ in range(n)]
         for fr, dt in ((frame0, base), (frame1, fam)) + (((prior["frame"], base),) if prior else ()):
             col = [f for f in fr if f[0] == "b"][0]
             col[1], col[2] = dt, vals(len(col[2]))
-        [f for f in frame1 if f[0] == "b"][0][2][bad_rows[0]] = None
+        [f for f in frame1 if f[0] == "b"][0][2][bad_rows[0]] = float("nan") if (fam == base and base.startswith("float")) else None
         oe0 = {"b": "utf8", "s": "utf8"} if fam == "string" else None
     return {"object_encoding0": oe0,"id": sid, "variant": v, "scheme": scheme, "partition_on": list(pon), "frame0": frame0, "offsets0": off0, "prior": prior,
             "compression0": rng.choice([None, None, "GZIP"]),
@@ -585,6 +600,15 @@ def run_scenario(arg):
             vals = dsfs.values(ParquetFile(work).to_pandas())
             out["read"] = "old" if vals == old_vals else "other"
             out["nrows"] = len(vals[0][1]) if vals else 0
+            if sc["variant"]["kind"] == "sentinel_ok" and raised is None:
+                # accepted: old rows untouched and first, the new rows (any order inside a partitioned row group) with the sentinel cell missing
+                nold = len(old_vals[0][1])
+                newv = dsfs.values(L.to_df(sc["frame1"]))
+                want = sorted(map(repr, zip(*[dict(newv)[c] for c, _ in vals])))
+                got = sorted(map(repr, zip(*[[str(x) if c in sc["partition_on"] and x is not None else x for x in col[nold:]] for c, col in vals])))
+                want = sorted(map(repr, zip(*[[str(x) if c in sc["partition_on"] and x is not None else x for x in dict(newv)[c]] for c, _ in vals])))
+                out["sentinel"] = {"old_intact": [[c, col[:nold]] for c, col in vals] == old_vals, "new_rows_match": got == want,
+                                   "missing_cells_read": sum(1 for x in dict(vals)["b"][nold:] if x is None)}
         except BaseException as e:           # noqa
             out["read"] = "unreadable"
             out["read_detail"] = "%s: %s" % (type(e).__name__, str(e)[:160])
@@ -610,6 +634,9 @@ def judge(sc, res):
     if expect == "ok":
         if res["raised"]:
             problems.append(("control-raised", "a call the library should accept raised %s" % res["raised"]))
+        sen = res.get("sentinel")
+        if sen and not (sen["old_intact"] and sen["new_rows_match"] and sen["missing_cells_read"] == 1):
+            problems.append(("sentinel-cell-not-kept", "accepted append of a NaN / NaT / <NA> cell into a non-nullable float / time column: %s" % sen))
         return problems
     if res["raised"] is None:
         problems.append(("no-exception", "the call returned normally (fresh open reads %s content, %s rows, before %s)" % (
@@ -698,7 +725,9 @@ def run(ctx):
         if res.get("setup_fallback"):
             ctx.count("setup_fallback", res["setup_fallback"][:60])
         ctx.count("position", "%s/%s" % (v.get("pos"), v.get("rg")))
-        if v.get("family") and v["kind"] == "na_nonnull":
+        if v.get("family") and v["kind"] == "sentinel_ok":
+            ctx.count("sentinel_cell_in_required_column", "%s/%s/%s" % (v["family"], v["pos"], v["rg"]))
+        elif v.get("family") and v["kind"] == "na_nonnull":
             ctx.count("missing_value_in_required_column", "%s/%s/%s" % (v["family"], v["pos"], v["rg"]))
         elif v.get("family"):
             ctx.count("unsupported_family", "%s/%s/%s" % (v["family"], v["oe"], v["pos"]))
